@@ -62,7 +62,7 @@ impl Hr {
     }
 }
 
-fn enter(rqctx: &RequestContext<Ctx>) -> Hr {
+pub fn enter(rqctx: &RequestContext<Ctx>) -> Hr {
     let op = rqctx.endpoint.operation_id.clone();
     rqctx.context().entered.get(&op).expect("counter").fetch_add(1, Ordering::SeqCst);
     let seed = rqctx
@@ -309,7 +309,7 @@ impl<T: Mk> Mk for BTreeMap<String, T> {
 pub trait Rb: Mk + Serialize + JsonSchema + Send + Sync + 'static {}
 impl<T: Mk + Serialize + JsonSchema + Send + Sync + 'static> Rb for T {}
 
-type HR<T> = Result<T, HttpError>;
+pub type HR<T> = Result<T, HttpError>;
 
 // ------------------------------------------------------- scalar families
 
@@ -776,7 +776,7 @@ async fn h_qmp(rqctx: RequestContext<Ctx>, _q: Query<QTag>, b: MultipartBody) ->
 
 // ----------------------------------------------------------- response kinds
 
-async fn r_ok<T: Rb>(rqctx: RequestContext<Ctx>) -> HR<HttpResponseOk<T>> {
+pub async fn r_ok<T: Rb>(rqctx: RequestContext<Ctx>) -> HR<HttpResponseOk<T>> {
     let mut r = enter(&rqctx);
     Ok(HttpResponseOk(T::mk(&mut r)))
 }
@@ -882,7 +882,7 @@ pub const G_EMODE: &str = "(mkSt (TEnum [[98;97;100];[99;111;100;101;100];[105;1
 pub fn spec_ectl() -> String {
     spec(&[lf("mode", G_EMODE, REQ, None)])
 }
-fn mk_http_error(mode: EMode, r: &mut Hr) -> HttpError {
+pub fn mk_http_error(mode: EMode, r: &mut Hr) -> HttpError {
     match mode {
         EMode::Bad => HttpError::for_bad_request(None, format!("bad: {}", r.string())),
         EMode::Coded => HttpError::for_bad_request(Some(r.string()), "coded".to_string()),
@@ -981,7 +981,7 @@ impl UserErr for MyErr {}
 impl UserErr for other::Error {}
 
 /// success path with required parameters: extractor failures are converted
-async fn x_q<E: UserErr>(rqctx: RequestContext<Ctx>, _q: Query<QA>) -> Result<HttpResponseOk<RB>, E> {
+pub async fn x_q<E: UserErr>(rqctx: RequestContext<Ctx>, _q: Query<QA>) -> Result<HttpResponseOk<RB>, E> {
     let mut r = enter(&rqctx);
     Ok(HttpResponseOk(RB::mk(&mut r)))
 }
@@ -990,7 +990,7 @@ async fn x_p<E: UserErr>(rqctx: RequestContext<Ctx>, p: Path<P1<u32>>) -> Result
     Ok(HttpResponseOk(p.into_inner().v))
 }
 /// handler-returned errors
-async fn x_err<E: UserErr>(rqctx: RequestContext<Ctx>, q: Query<ECtl>) -> Result<HttpResponseOk<RA>, E> {
+pub async fn x_err<E: UserErr>(rqctx: RequestContext<Ctx>, q: Query<ECtl>) -> Result<HttpResponseOk<RA>, E> {
     let mut r = enter(&rqctx);
     Err(E::from(mk_http_error(q.into_inner().mode, &mut r)))
 }
@@ -1084,32 +1084,42 @@ pub struct OpInfo {
     pub body: Option<&'static str>,
     /// the response body type is `Option<T>` for a referenceable `T`: T's component name
     pub opt_ref_resp: Option<&'static str>,
+    /// large-scope slice (large.rs): 0 ordinary, 1 a large operation (few
+    /// requests each), 2 one of the many trivial operations, 3 the status sweep
+    pub large: u8,
+    /// evidence tags of the operation's cases
+    pub tags: Vec<String>,
 }
-fn info(resp: Option<(&'static str, &'static str)>) -> OpInfo {
+pub fn info(resp: Option<(&'static str, &'static str)>) -> OpInfo {
     OpInfo { resp, ..Default::default() }
 }
 impl OpInfo {
-    fn p(mut self, s: String) -> Self {
+    pub fn p(mut self, s: String) -> Self {
         self.path_spec = Some(s);
         self
     }
-    fn q(mut self, s: String) -> Self {
+    pub fn q(mut self, s: String) -> Self {
         self.query_spec = Some(s);
         self
     }
-    fn h(mut self, h: &[&'static str]) -> Self {
+    pub fn h(mut self, h: &[&'static str]) -> Self {
         self.hdrs = h.to_vec();
         self
     }
-    fn ce(mut self) -> Self {
+    pub fn ce(mut self) -> Self {
         self.custom_error = true;
         self
     }
-    fn on(mut self, component: &'static str) -> Self {
+    pub fn on(mut self, component: &'static str) -> Self {
         self.opt_ref_resp = Some(component);
         self
     }
-    fn b(mut self, b: &'static str) -> Self {
+    pub fn large(mut self, kind: u8, tags: &[&str]) -> Self {
+        self.large = kind;
+        self.tags = tags.iter().map(|t| t.to_string()).collect();
+        self
+    }
+    pub fn b(mut self, b: &'static str) -> Self {
         self.body = Some(b);
         self
     }
@@ -1221,6 +1231,7 @@ pub fn build_api() -> (ApiDescription<Ctx>, Ctx, BTreeMap<String, OpInfo>) {
     reg!("x_tr_ser", tr_ser::<other::Error>, Method::POST, JSON, "/x/tr/ser", info(CREATED_J).q(spec_trctl()).ce());
     reg!("h_tr_hdr", tr_hdr_http, Method::GET, JSON, "/h/tr/hdr", info(OK_J).q(spec_trctl()).h(&["x-tr"]));
     reg!("h_tr_ser", tr_ser_http, Method::POST, JSON, "/h/tr/ser", info(CREATED_J).q(spec_trctl()));
+    crate::large::register(&mut api, &mut ops);
     let entered = ops.keys().map(|o| (o.clone(), Arc::new(AtomicU64::new(0)))).collect();
     (api, Ctx { entered }, ops)
 }
